@@ -172,6 +172,10 @@ func Apply(doc *html.Node, opts *Options) (*Result, error) {
 	distillerStart := time.Now()
 
 	// Check whether doc is valid
+	if doc == nil {
+		return nil, errors.New("input doesn't have a valid element")
+	}
+
 	if doc.Type != html.ElementNode {
 		doc = dom.QuerySelector(doc, "*")
 		if doc == nil {
